@@ -21,8 +21,14 @@ from dataclasses import dataclass, field
 from core import Case
 
 PID = "C08"
-LEAN_MODULES = ["KrroodVerif.Props.C08"]
+LEAN_MODULES = ["KrroodVerif.Props.C08", "KrroodVerif.Props.C08Build"]
 THEOREMS = [
+    "KrroodVerif.Rdr.C08_build",
+    "KrroodVerif.Rdr.C08_build_layout",
+    "KrroodVerif.Rdr.C08_end_to_end",
+    "KrroodVerif.Rdr.C08_build_authored",
+    "KrroodVerif.Rdr.C08_end_to_end_authored_full",
+    "KrroodVerif.Rdr.C08_build_authored_at",
     "KrroodVerif.Rdr.C08_eval",
     "KrroodVerif.Rdr.C08_eval_partial",
     "KrroodVerif.Rdr.C08_today_end_to_end",
@@ -550,8 +556,87 @@ def _draw_second_variable(rng, dom, root: Block):
             b.concl = [c + YCLASS for c in b.concl]
 
 
+DEEP_MAXDEPTH, DEEP_MAXSIZE, DEEP_MAXCHAIN = 7, 14, 10
+
+
+def _gen_deep_prog(rng):
+    """programs beyond every finite table of the build theorems' old kind — 5-14 branches, nesting up to 7, chains of
+    up to 10 alternatives/next_rules — the region `C08_build` (unbounded) now covers: grown by appending a random
+    branch to a random block, kept unambiguous; one in four is a single long chain written in one block or nested"""
+    n = rng.choice([2, 3, 4, 5])
+    dom = list(range(n))
+    p_hold = rng.choice([0.3, 0.5, 0.5, 0.7])
+    counter = [0]
+
+    def mk(kind):
+        concl = []
+        if kind == "root" or rng.random() < 0.9:
+            concl = [counter[0]]
+            counter[0] += 1
+        return Block(kind, [d for d in dom if rng.random() < (max(p_hold, 0.5) if kind == "root" else p_hold)], concl, [])
+
+    root = mk("root")
+    target = rng.randint(5, DEEP_MAXSIZE)
+    if rng.random() < 0.25:
+        # one long chain: alternatives then next_rules, each written in the rule's block or in the previous branch
+        k = rng.randint(6, DEEP_MAXCHAIN)
+        nalt = rng.randint(0, k)
+        prev, depth = root, 0
+        host = root
+        if rng.random() < 0.4:
+            host = mk("ref")
+            root.kids.append(host)
+            prev, depth = host, 1
+        for j in range(k):
+            b = mk("alt" if j < nalt else "next")
+            if depth + 1 <= DEEP_MAXDEPTH and rng.random() < 0.5:
+                prev.kids.append(b)
+                prev, depth = b, depth + 1
+            else:
+                (host if rng.random() < 0.5 else prev).kids.append(b)
+                if rng.random() < 0.5:
+                    prev = b
+                    depth = depth + 1 if prev is not host else depth
+            if not unambiguous(root) or root.depth() - 1 > DEEP_MAXDEPTH:
+                # undo: find and drop b
+                for blk in root.walk():
+                    if b in blk.kids:
+                        blk.kids.remove(b)
+                host.kids.append(b)
+                prev = b
+                if not unambiguous(root):
+                    host.kids.remove(b)
+        if rng.random() < 0.5:
+            for blk in list(root.walk()):
+                if blk.kind != "root" and rng.random() < 0.3 and root.depth() - 1 < DEEP_MAXDEPTH:
+                    blk.kids.insert(0, mk("ref"))
+        return dom, root
+    tries = 0
+    while root.size() - 1 < target and tries < 200:
+        tries += 1
+        blocks = list(root.walk())
+        host = rng.choice(blocks[-3:] if rng.random() < 0.5 else blocks)  # half of the time: grow deep
+        b = mk(rng.choice(["ref", "ref", "alt", "alt", "next"]))
+        host.kids.append(b)
+        if (not unambiguous(root) or root.depth() - 1 > DEEP_MAXDEPTH or _longest_chain(root) > DEEP_MAXCHAIN):
+            host.kids.remove(b)
+    return dom, root
+
+
 def generate(rng, tier, n):
     cases = list(_exhaustive(tier))
+    for i in range(max(n // 20, 40)):
+        dom, root = _gen_deep_prog(rng)
+        assert unambiguous(root)
+        multi = i % 3 == 0
+        if multi:
+            _add_schedule(rng, root)
+        kinds = sorted({b.kind for b in root.walk()} - {"root"})
+        tags = ("random", "deep-wide", f"size{min(root.size() - 1, 14)}", f"depth{root.depth() - 1}",
+                f"chain{_longest_chain(root)}", "kinds:" + "+".join(kinds), f"dom{len(dom)}")
+        if multi:
+            tags += ("multi-block", f"blocks{len(root.sessions())}")
+        cases.append(Case(show_prog(dom, root), tags, "random"))
     for i in range(n):
         clean = i % 2 == 0
         dom, root = _gen_prog(rng, clean)
